@@ -1402,8 +1402,15 @@ func (ctx *RenderContext) getItem(container, index interface{}) (interface{}, er
 		return nil, nil // Nil for missing keys
 
 	default:
-		// Use reflection for other types
+		// Use reflection for other types (through pointers: x['k'] and x.k mean
+		// the same for a pointer to a map, too)
 		v := reflect.ValueOf(container)
+		for v.Kind() == reflect.Ptr {
+			if v.IsNil() {
+				return nil, nil
+			}
+			v = v.Elem()
+		}
 
 		switch v.Kind() {
 		case reflect.Slice, reflect.Array:
@@ -1490,6 +1497,16 @@ func (ctx *RenderContext) getAttribute(obj interface{}, attr string) (interface{
 	// looked up by key like map[string]interface{} above
 	if objValue.Kind() == reflect.Map && objValue.Type().Key().Kind() == reflect.String {
 		value := objValue.MapIndex(reflect.ValueOf(attr).Convert(objValue.Type().Key()))
+		if value.IsValid() && value.CanInterface() {
+			return value.Interface(), nil
+		}
+		return nil, nil
+	}
+
+	// A map with interface keys may hold the name as a string key; m.name and
+	// m['name'] mean the same
+	if objValue.Kind() == reflect.Map && objValue.Type().Key().Kind() == reflect.Interface {
+		value := objValue.MapIndex(reflect.ValueOf(attr))
 		if value.IsValid() && value.CanInterface() {
 			return value.Interface(), nil
 		}
